@@ -857,6 +857,8 @@ def run(tier, only=None):
     k10(rep)
     k12(rep)
     k13(rep)
+    from . import variant_dispatch
+    variant_dispatch.report_absyn(rep, "K14", ["abnorm.c", "macex.c"], 15)
     from . import variadic
     _gen = set(["genc.c", "ccode.c"] + [u for u in common.compiler_units() if u.startswith(("java/", "of_")) or u in ("usedef.c", "flog.c", "dflow.c", "optfoam.c", "inlutil.c", "loops.c")])
     variadic.report(rep, "K11", [u for u in common.compiler_units() if u not in _gen], floor=1700, what="in the front end, FOAM generator and support units")
